@@ -52,6 +52,10 @@ type Node struct {
 	Class     string `json:"class,omitempty"` // planned latency class: early | mid | late
 	LatMs     int    `json:"lat_ms"`          // planned latency
 	IgnoreCtx bool   `json:"ignore_ctx,omitempty"`
+	// prop: outcome of the node's client-name request (made by
+	// beaconblockproposal/best when the graffiti contains {{CLIENT}})
+	Client    string `json:"client,omitempty"`     // name the node reports (0-40 characters)
+	ClientErr string `json:"client_err,omitempty"` // non-empty: the request fails (plain | api503)
 }
 
 // Value is one entry of the value pool; its meaning depends on the family:
@@ -70,6 +74,10 @@ type Value struct {
 	// exceed int64: 20 ETH, 1000 ETH, 2^200); when empty, B and C are used
 	CV string `json:"cv,omitempty"`
 	EV string `json:"ev,omitempty"`
+	// att, root: the slot of the head / root is not in the cache's memory: the
+	// cache has to fetch it, which (as in the real cache) fails when the context
+	// it is given is already done
+	Miss bool `json:"miss,omitempty"`
 }
 
 // propValues gives the consensus and execution value of a proposal pool value.
@@ -116,6 +124,8 @@ type Case struct {
 	More []Step `json:"more,omitempty"`
 	// Epoch0: the history takes place in epoch 0 instead of epoch 1000
 	Epoch0 bool `json:"epoch0,omitempty"`
+	// Graffiti of the proposal requests (prop); may contain {{CLIENT}}
+	Graffiti string `json:"graffiti,omitempty"`
 
 	k int // set in the per-call view handed to the oracle: index of the call
 }
@@ -216,6 +226,12 @@ func genNodes(t *rapid.T, info stratInfo, n, poolN, soft, hard int) []Node {
 			}
 		}
 		nd.IgnoreCtx = between(t, "ignoreCtx", 0, 3) == 0
+		if info.Family == "prop" {
+			nd.Client = choose(t, "client", []string{"", "teku", "lighthouse", "prysm", "a-client-name-of-forty-characters-012345"})
+			if between(t, "clientFails", 0, 3) == 0 {
+				nd.ClientErr = choose(t, "clientErr", []string{"plain", "api503"})
+			}
+		}
 		nodes = append(nodes, nd)
 	}
 	return nodes
@@ -254,6 +270,7 @@ func genCase(t *rapid.T) Case {
 		case "att":
 			v.A = choose(t, "sourceBack", []int64{1, 1, 2, 3})
 			v.B = choose(t, "headDist", []int64{-1, 0, 0, 1, 2, 5, 31})
+			v.Miss = v.B >= 0 && between(t, "cacheMiss", 0, 1) == 1
 		case "agg":
 			v.A = choose(t, "bits", []int64{1, 8, 64, 128, 128, 2048})
 			switch between(t, "fill", 0, 3) {
@@ -278,6 +295,7 @@ func genCase(t *rapid.T) Case {
 			v.A = choose(t, "set", []int64{0, 0, 1, 1, 64, 127, 128, 128})
 		case "root":
 			v.A = choose(t, "rootDist", []int64{-1, 0, 0, 1, 1, 2, 40})
+			v.Miss = v.A >= 0 && between(t, "cacheMiss", 0, 1) == 1
 		}
 		c.Pool = append(c.Pool, v)
 	}
@@ -288,6 +306,9 @@ func genCase(t *rapid.T) Case {
 			GapMs: choose(t, "gap", []int{0, 0, 150, 500}),
 			Nodes: genNodes(t, info, n, poolN, soft, hard),
 		})
+	}
+	if info.Family == "prop" {
+		c.Graffiti = choose(t, "graffiti", []string{"c07", "", "vouch {{CLIENT}}", "{{CLIENT}}", "{{CLIENT}}+{{CLIENT}} on a long graffiti"})
 	}
 	epoch0 := 8
 	if info.Family == "att" {
@@ -533,6 +554,7 @@ func run(c *Case) *history {
 		w.mu.Lock()
 		w.t0[k] = begin
 		w.mu.Unlock()
+		w.cur.Store(int64(k))
 		go func() {
 			defer close(done)
 			defer func() {
@@ -951,6 +973,7 @@ func judge(c *Case, o *observation) verdict {
 		}
 		cuts = append(cuts, cut{S, true}, cut{H, true})
 		acceptable := map[int]bool{}
+		tied := map[int]bool{} // most frequent, before the tie-break
 		consider := func(at float64, timer bool) {
 			// values seen by the cut; for timer cuts each instant within g of
 			// the cut may be on either side
@@ -981,11 +1004,22 @@ func judge(c *Case, o *observation) verdict {
 						top = k
 					}
 				}
+				// ties: the latest, i.e. the root with the greatest slot (an
+				// unknown root counts as slot 0); equal slots either way
+				var latest *big.Rat
 				w := 0
 				for val, k := range cnt {
 					if k == top {
-						acceptable[val] = true
+						tied[val] = true
 						w++
+						if sc := refScore(c, val); latest == nil || sc.Cmp(latest) > 0 {
+							latest = sc
+						}
+					}
+				}
+				for val, k := range cnt {
+					if k == top && refScore(c, val).Cmp(latest) == 0 {
+						acceptable[val] = true
 					}
 				}
 				if w > 1 {
@@ -1004,6 +1038,10 @@ func judge(c *Case, o *observation) verdict {
 			// returned before any documented decision point: judged against
 			// everything reported within the timeout
 			consider(H, true)
+		}
+		if !acceptable[X] && tied[X] {
+			// docs/configuration.md: "the one returned by most nodes (taking the latest in case of a tie)"
+			return fail("majority-tie-not-latest", "value %d (slot %s) returned after %.0f ms; it is tied for the most reports, but the tie goes to the latest root: %v", X, refScore(c, X).RatString(), R, scoresOf(c, acceptable))
 		}
 		if !acceptable[X] {
 			return fail("majority-not-most-frequent", "value %d returned after %.0f ms; most frequent at its possible decision points: %v", X, R, sortedKeys(acceptable))
@@ -1145,6 +1183,9 @@ func labelsOf(c *Case, h *history, v *verdict) []string {
 					has["simultaneous-answers"] = true
 				}
 			}
+			if n.ClientErr != "" && strings.Contains(c.Graffiti, "{{CLIENT}}") {
+				has["client-name-request-fails"] = true
+			}
 			if n.Kind == "value" && n.Class == "mid" {
 				if st := strategies[c.Strategy].Style; (st == "best" || st == "latest") && refScore(c.view(k), n.Val).Sign() == 0 {
 					scoreZero = true
@@ -1168,6 +1209,15 @@ func labelsOf(c *Case, h *history, v *verdict) []string {
 	}
 	if c.Epoch0 {
 		l = append(l, "epoch-0")
+	}
+	if strings.Contains(c.Graffiti, "{{CLIENT}}") {
+		l = append(l, "graffiti-with-client-template")
+	}
+	for _, p := range c.Pool {
+		if p.Miss {
+			l = append(l, "slot-not-in-cache-memory")
+			break
+		}
 	}
 	H := float64(c.TimeoutMs)
 	for _, o := range h.Calls {
@@ -1255,8 +1305,10 @@ func runBatch(cs []Case) []outcome {
 }
 
 // confirmed re-executes the case: a disagreement that depends on real time is
-// believed only when it shows again, with the same signature, in each of
-// three further unperturbed executions.
+// believed only when it shows again, with the same signature, in at least
+// three of up to nine further unperturbed executions (a defect may depend on
+// map iteration order, so an execution without a disagreement does not veto;
+// three chance disagreements with one signature among nine do not happen).
 func confirmed(c *Case, sig string) bool {
 	okRuns := 0
 	for round := 0; round < 3 && okRuns < 3; round++ {
@@ -1265,13 +1317,9 @@ func confirmed(c *Case, sig string) bool {
 			if r.o.Harness != "" {
 				return false
 			}
-			if r.v.Perturbed {
-				continue
+			if !r.v.Perturbed && r.v.Sig == sig {
+				okRuns++
 			}
-			if r.v.Sig != sig {
-				return false
-			}
-			okRuns++
 		}
 	}
 	return okRuns >= 3
@@ -1333,6 +1381,11 @@ func simpler(c *Case) []Case {
 		d.Epoch0 = false
 		r = append(r, d)
 	}
+	if c.Graffiti != "" {
+		d := clone(c)
+		d.Graffiti = ""
+		r = append(r, d)
+	}
 	for j, s := range c.More {
 		if s.GapMs > 0 {
 			d := clone(c)
@@ -1345,6 +1398,11 @@ func simpler(c *Case) []Case {
 			if n.IgnoreCtx {
 				d := clone(c)
 				stepNodes(&d, k)[i].IgnoreCtx = false
+				r = append(r, d)
+			}
+			if n.ClientErr != "" || n.Client != "" {
+				d := clone(c)
+				stepNodes(&d, k)[i].ClientErr, stepNodes(&d, k)[i].Client = "", ""
 				r = append(r, d)
 			}
 			if n.Kind == "invalid" || n.Kind == "hang" {
